@@ -164,6 +164,7 @@ class Machine:
         self.depth = 0
         self.cur_stride = None
         self.iarrs = {}
+        self.collect = None
 
     def var(self, buf, c, b):
         return 1 << (1 + (buf * self.chunk + c) * 8 + b)
@@ -498,6 +499,10 @@ def binop(op, a, b, w, ins):
 
 
 def icmp(m, pred, a, b, w, ins):
+    if isinstance(a, Bits) and a.concrete() is None and m.collect is not None and pred in ('ne', 'eq') and (b == 0 or (isinstance(b, Bits) and b.concrete() == 0)):
+        # syndrome test `x != 0` on data: record the forms and continue on the "zero" side; the caller judges the recorded forms
+        m.collect.append((list(a.f), ins.loc()))
+        return 0 if pred == 'ne' else 1
     if isinstance(a, Bits):
         a = a.concrete()
     if isinstance(b, Bits):
